@@ -271,6 +271,19 @@ class TermArr:
       return x / y          # z3 Int division: floor for positive divisors
     return self._ew(other, f, swap=swap)
 
+  def frem(self, other, swap=False):
+    """C fmod on reals: a - b * trunc(a / b)."""
+    def f(a, b):
+      if not isz(a) and not isz(b):
+        return float(np.fmod(a, b))
+      a, b = _num(a, b)
+      if z3.is_int(a): a = z3.ToReal(a)
+      if z3.is_int(b): b = z3.ToReal(b)
+      q = a / b
+      tr = z3.If(q >= 0, z3.ToReal(z3.ToInt(q)), -z3.ToReal(z3.ToInt(-q)))
+      return a - b * tr
+    return self._ew(other, f, swap=swap)
+
   def rdiv(self, num):
     self._oblige_nonzero(self)
     return self._ew(num, s_div, swap=True)
@@ -323,6 +336,15 @@ class TermArr:
         if z3.is_int(x): return x
         return z3.ToReal(z3.ToInt(x))
       return self._map(fl)
+    if name == 'round':
+      half = z3.RealVal(Fraction(1, 2))
+      def rnd(x):
+        if not isz(x): return float(np.round(x))
+        x = R(x)
+        if z3.is_int(x): return x
+        # round half away from zero (XLA ROUND_AWAY_FROM_ZERO)
+        return z3.If(x >= 0, z3.ToReal(z3.ToInt(x + half)), -z3.ToReal(z3.ToInt(-x + half)))
+      return self._map(rnd)
     if name == 'ceil':
       def ce(x):
         if not isz(x): return float(np.ceil(x))
@@ -614,3 +636,40 @@ def specialize(terms, assumptions, timeout_ms=2000, stats=None):
     else:
       out.append(t)
   return out
+
+
+# ---------------------------------------------------------------------------
+# TermArr as a duck array through real numpy code (E2): numpy ufuncs dispatch to the symbolic rules
+
+_UFUNC_BIN = {'add': lambda a, b: a.add(b), 'subtract': lambda a, b: a.add(b, -1.0), 'multiply': lambda a, b: a.mul(b),
+              'true_divide': lambda a, b: a.div(b), 'divide': lambda a, b: a.div(b), 'maximum': lambda a, b: a.maximum(b),
+              'minimum': lambda a, b: a.minimum(b), 'less': lambda a, b: a.compare('lt', b), 'less_equal': lambda a, b: a.compare('le', b),
+              'greater': lambda a, b: a.compare('gt', b), 'greater_equal': lambda a, b: a.compare('ge', b),
+              'equal': lambda a, b: a.compare('eq', b), 'not_equal': lambda a, b: a.compare('ne', b)}
+_UFUNC_UN = {'negative': lambda a: a.neg(), 'cos': lambda a: a.unary('cos'), 'sin': lambda a: a.unary('sin'), 'exp': lambda a: a.unary('exp'),
+             'log': lambda a: a.unary('log'), 'sqrt': lambda a: a.unary('sqrt'), 'absolute': lambda a: a.unary('abs'), 'square': lambda a: a.mul(a),
+             'floor': lambda a: a.unary('floor')}
+
+
+def _array_ufunc(self, ufunc, method, *inputs, **kwargs):
+  if method != '__call__' or kwargs.get('out') is not None:
+    return NotImplemented
+  name = ufunc.__name__
+  if name in _UFUNC_UN and len(inputs) == 1:
+    return _UFUNC_UN[name](self)
+  if name in _UFUNC_BIN and len(inputs) == 2:
+    a, b = inputs
+    if isinstance(a, TermArr):
+      return _UFUNC_BIN[name](a, b)
+    lifted = b.lift(np.asarray(a))
+    return _UFUNC_BIN[name](lifted, b)
+  if name == 'power' and len(inputs) == 2 and isinstance(inputs[0], TermArr) and np.ndim(inputs[1]) == 0 and float(inputs[1]) == int(inputs[1]):
+    return inputs[0].ipow(int(inputs[1]))
+  return NotImplemented
+
+
+TermArr.__array_ufunc__ = _array_ufunc
+TermArr.__getitem__ = lambda self, idx: TermArr(np.asarray(self.a[idx], dtype=object) if not isinstance(self.a[idx], np.ndarray) else self.a[idx], self.sp)
+TermArr.__rtruediv__ = lambda self, o: self.rdiv(o)
+TermArr.__pow__ = lambda self, n: self.ipow(int(n))
+TermArr.__len__ = lambda self: self.a.shape[0]
